@@ -111,6 +111,7 @@ func (s *atpServerSession) sendRuntimeMessage(msgID uint32, runID string, messag
 func (s *atpServerSession) handleClosure() []*ServerError {
 	// Wait for work done or context complete.
 	var errors []*ServerError
+	stdinClosed := false
 closeLoop:
 	for {
 		vh("s.closure.select.pre")
@@ -135,19 +136,20 @@ closeLoop:
 			if err != nil {
 				_, _ = fmt.Fprintf(os.Stderr, "error while sending error message: %s\n", err)
 			}
-			// If either the error report sending failed, or the error was server fatal, stop here.
-			if err != nil || errorSent.ServerFatal {
+			// If either the error report sending failed, or the error was server fatal, stop accepting input.
+			// Steps that are still running report through this channel, so errors keep being received and
+			// forwarded until the channel is closed; otherwise those steps would block or never be answered.
+			if (err != nil || errorSent.ServerFatal) && !stdinClosed {
 				vh("s.closure.fatal", "senderr", err != nil)
+				stdinClosed = true
 				err = s.stdinCloser.Close()
 				if err != nil {
-					return append(errors, &ServerError{
+					errors = append(errors, &ServerError{
 						RunID:       errorSent.RunID,
 						Err:         fmt.Errorf("error closing stdin (%w) after workDone error (%v)", err, errorSent),
 						StepFatal:   true,
 						ServerFatal: true,
 					})
-				} else {
-					break closeLoop
 				}
 			}
 		case <-s.ctx.Done():
@@ -156,7 +158,12 @@ closeLoop:
 			break closeLoop
 		}
 	}
-	// Now close the pipe that it gets input from.
+	// If the loop was left before the channel was closed, keep receiving so that steps that are still running
+	// are not blocked when they report an error.
+	go func() {
+		for range s.workDone {
+		}
+	}()
 	return errors
 }
 
@@ -340,9 +347,15 @@ func (s *atpServerSession) run() {
 	defer func() {
 		vh("s.run.exit.pre")
 		s.runDoneChannel <- true
-		close(s.workDone)
-		vh("s.errq.close")
 		s.wg.Done()
+		// Step and signal goroutines report their errors through workDone and may still be running when the
+		// read loop ends, so the channel is closed only once all of them are done. No new ones can be started
+		// at this point, because only the read loop starts them.
+		go func() {
+			s.wg.Wait()
+			close(s.workDone)
+			vh("s.errq.close")
+		}()
 	}()
 
 	err := s.sendInitialMessagesToClient()
